@@ -42,7 +42,7 @@ def consts(**over):
         Ctl=[], Ends=['ret', 'raise'],
         Classes=[K('K1')], Draws=['low'], Extractors=['none'], SaveFails=[False],
         Toggles=0, StartEnabled=[True], MaxSteps=2, MaxPSteps=None, MaxRuns=1, MaxRecs=1, Modes=[], EditKinds=[],
-        InOpts=[], OutOpts=[], PlayFaults=[],
+        InOpts=[], OutOpts=[], PlayFaults=[], FreeBodies=[''],
         FixF1=True, FixF2=True, FixF3=True, FixF10=True)
     c.update(over)
     if c['MaxPSteps'] is None:
@@ -58,7 +58,7 @@ def consts(**over):
 
 def to_tla_consts(c):
     world = ('(' + ' @@ '.join('%s :> %s' % (mc.tla(tuple(k)), mc.tla(tuple(v))) for k, v in sorted(c['World'].items())) + ')') if c['World'] else '<<>>'
-    incalls = set(tuple(x) for x in c['InCalls']) | ({tuple(c['InnerCall'])} if set(c['Bodies']) & {'nestSame', 'nestOther'} else set())
+    incalls = set(tuple(x) for x in c['InCalls']) | ({tuple(c['InnerCall'])} if (set(c['Bodies']) | set(c.get('FreeBodies', ()))) & {'nestSame', 'nestOther'} else set())
 
     def recset(lst):
         return Raw('{' + ', '.join(mc.tla(x) for x in lst) + '}')
@@ -74,7 +74,7 @@ def to_tla_consts(c):
         SaveFails=set(c['SaveFails']), Toggles=c['Toggles'], StartEnabled=set(c['StartEnabled']),
         MaxSteps=c['MaxSteps'], MaxPSteps=c['MaxPSteps'], MaxRuns=c['MaxRuns'], MaxRecs=c['MaxRecs'], Modes=set(c['Modes']),
         EditKinds=set(c['EditKinds']), InOpts=recseq(c['InOpts']), OutOpts=recseq(c['OutOpts']),
-        PlayFaults=set(c['PlayFaults']),
+        PlayFaults=set(c['PlayFaults']), FreeBodies=set(c.get('FreeBodies', [''])),
         FixF1=c['FixF1'], FixF2=c['FixF2'], FixF3=c['FixF3'], FixF10=c['FixF10'])
 
 
